@@ -315,6 +315,28 @@ func main() {
 		}
 	})
 
+	// two initialisers racing (A preempted after k calls, B completes, A continues) on the
+	// scenarios that start without complete TLS material
+	parallel(workers, len(bases), func(i int) {
+		b := bases[i]
+		if b == nil || !b.ok {
+			return
+		}
+		kmax := 12
+		if c.Thorough() {
+			kmax = 30
+		}
+		if i%2 == 1 && !c.Thorough() {
+			return
+		}
+		if err := kit.Try(func() { concurrentTLS(c, b, 7) }); err != nil {
+			c.Violate("harness-panic:concurrent-tls", "scn/"+b.sc.Name+"/concurrent-tls", err.Error(), nil)
+		}
+		if err := kit.Try(func() { concurrent(c, b, kmax) }); err != nil {
+			c.Violate("harness-panic:concurrent", "scn/"+b.sc.Name+"/concurrent", err.Error(), nil)
+		}
+	})
+
 	var cases []faultCase
 	callsPer := map[string]int{}
 	for i, b := range bases {
